@@ -193,6 +193,21 @@ func StrategyByName(name string) (Strategy, error) {
 			}
 			return en[0]
 		}, nil
+	case "devlast":
+		// messages sent by party <arg> are delivered only when nothing else can happen (a "rushing" deviator
+		// that has seen everybody else's message of the round before its own is delivered)
+		return func(s *Session, en []Step, _ *rand.Rand) Step {
+			if st, ok := firstStart(en); ok {
+				return st
+			}
+			d := deliveries(en)
+			for _, e := range d {
+				if s.item(e.Item).From.G != arg {
+					return e
+				}
+			}
+			return d[0]
+		}, nil
 	case "flipfirst":
 		// every message is first handed over with the wrong broadcast flag, then correctly
 		return func(s *Session, en []Step, _ *rand.Rand) Step {
